@@ -29,6 +29,9 @@ def case_to_coq(c):
     if fam == "api":
         return "api_case %d %s %s %s %s" % (c["id"], C.cq_z(c.get("version", 0)), cq_resp(c["check"]),
                                             C.cq_bool(o["called"]), C.cq_str(o["header"]))
+    if fam == "plusconn":
+        ws = ["(%d, %d)" % (w["worker"], w["current"]) for st in c.get("steps") or [] for w in st["writes"]]
+        return "plusconn_case %d %s" % (c["id"], C.cq_list(ws))
     if fam == "conf":
         return "conf_case %d %s %s %s" % (c["id"], C.cq_z(c.get("version", 0)), C.cq_bool(c.get("open_tracing", False)),
                                           C.cq_bytes(o["file"]))
@@ -109,6 +112,20 @@ def check(run):
     if rc != 0:
         raise C.TieBroken("c13 harness failed rc=%d: %s" % (rc, log[-1500:]))
     cases = C.read_jsonl(out)
+    # connection affinity of the Plus API client pair, through the real createPlusClient of cmd/nginx-ingress
+    pbin = C.go_build("c02", pkg="./cmd/nginx-ingress")
+    pout = os.path.join(C.WORK, "cases", "c13plus_%s.jsonl" % run.tier)
+    rc, log = C.run_harness(pbin, ["-seed", str(run.seed), "-n", "12" if run.tier == "quick" else "60", "-out", pout], timeout=600, env={"VERIF_C13PLUS": "1"})
+    if rc != 0:
+        raise C.TieBroken("c13 plus-connection harness failed rc=%d: %s" % (rc, log[-1500:]))
+    for pc in C.read_jsonl(pout):
+        pc["id"] = 100000 + pc["id"]
+        pc["class"] = "affinity"
+        if pc.get("error"):
+            pc["obs"] = {"error": pc["error"]}
+        else:
+            pc["obs"] = {"steps": pc["steps"]}
+        cases.append(pc)
     shard = 400
     for k in range(0, len(cases), shard):
         part = cases[k:k + shard]
